@@ -376,6 +376,8 @@ int hwloc_topology_diff_build(hwloc_topology_t topo1,
 			    || dist1->different_types || dist2->different_types /* too lazy to support this case */
 			    || dist1->nbobjs != dist2->nbobjs
 			    || dist1->kind != dist2->kind
+			    || !dist1->name != !dist2->name
+			    || (dist1->name && strcmp(dist1->name, dist2->name))
 			    || memcmp(dist1->values, dist2->values, dist1->nbobjs * dist1->nbobjs * sizeof(*dist1->values)))
                           goto roottoocomplex;
 			for(i=0; i<dist1->nbobjs; i++)
